@@ -23,6 +23,11 @@ pub fn judge_value(ctx: &Ctx, case: &Value) -> Result<(), Fail> {
     let bad = |e: serde_json::Error| Fail::new("harness:replay", e.to_string());
     if let Some(c) = case.get("cli_case") {
         let c: props::frontends::CliCase = serde_json::from_value(c.clone()).map_err(bad)?;
+        if ctx.prop == "C07" {
+            let cli = props::frontends::build_cli(ctx).map_err(|e| Fail::new("harness:build", e))?;
+            let mut st = crate::runner::Stats::default();
+            return props::procs::check_batch_workers(ctx, &cli, 999_998, &c, &mut st);
+        }
         return props::frontends::replay_cli(ctx, &c);
     }
     if let Some(c) = case.get("py_seq") {
